@@ -3528,6 +3528,89 @@ def _c10_codepage_confirm(model, native):
     return (out.get("differs") == 1), (out.get("witness") or "summary strings survive every code-page switch natively")
 
 
+def c06_enum_gate_group(mir, ctx):
+    """create_table_with_name up to its first catalog insert, column loop unrolled (<= 1 column with
+    <= 2 enumeration values): enumeration values are stored joined by ';' in _Validation.Set and
+    split at ';' when the package is opened, so a value that is empty or contains ';' does not
+    reopen as it was created -- such a definition must be refused."""
+    fn = mir.find(r"package::.*::create_table_with_name$")
+    from .mir_protocol import _confirm_create
+    lens = {}
+    it_models, what_of, coll = iter_models(ctx, lens, consistent=True)
+
+    def m_bool(name):
+        return lambda ex, callee, args, pc, events: [(pc, events, BoolV(ctx.fresh_bool(name).term))]
+
+    def m_enum_values(ex, callee, args, pc, events):
+        c = what_of(ex, args[0])
+        return [(pc, events + [("enum", c, True)], EnumV(variant=1, fields=[OpaqueV("slice:enum(%s)" % c)])), (pc, events + [("enum", c, False)], EnumV(variant=0, fields=[]))]
+
+    def m_pred(tag):
+        def f(ex, callee, args, pc, events):
+            b = ctx.fresh_bool(tag)
+            return [(pc, events + [(tag, what_of(ex, args[0]), b.term)], BoolV(b.term))]
+        return f
+
+    def m_first(ex, callee, args, pc, events):
+        return [(pc, events + [("first-change",)], EnumV(variant=0, fields=[TupleV([])]))]
+
+    models = [
+        (r"Column::enum_values$", m_enum_values),
+        (r"String::is_empty$|impl str>::is_empty$", m_pred("empty?")), (r"impl str>::contains::<char>$|String::contains", m_pred("semi?")),
+        (r"<String as Deref>::deref$|String::as_str$", lambda ex, callee, args, pc, events: [(pc, events, OpaqueV(what_of(ex, args[0])))]),
+        (r"Package::<F>::insert_rows$|Package::<F>::validate_catalog_rows$", m_first),
+        (r"BTreeMap::<String, Rc<Table>>::contains_key::<", m_bool("table_exists")), (r"Table::is_valid_name$|Column::is_valid_name$", m_bool("name_ok")),
+        (r"HashSet::<&str>::contains::<", m_bool("dup_name")), (r"HashSet::<&str>::insert$", lambda ex, callee, args, pc, events: [(pc, events, BoolV("true", True))]),
+        (r"as Iterator>::any::<", m_bool("has_primary_key")),
+    ] + it_models
+
+    def stop_at(f, bb, term):
+        return None
+
+    ex = M.Exec(mir, ctx, models=models, havoc_unknown=True, max_paths=200000)
+    ex.max_revisit = 3
+    ex.no_inline = [r"Column::", r"Table::", r"Category::", r"closure", r"StringPool::", r"Value::", r"streamname::", r"Insert::"]
+    outs = ex.run(fn, [RefV(OpaqueV("package")), OpaqueV("table_name"), OpaqueV("columns")])
+    g = Group("enum_values_storable", ["package::Package::create_table_with_name (column loop unrolled)"], confirm=_confirm_create,
+              note="on every path on which create_table gets as far as its first catalog step, every enumeration value (<= 2) of every column "
+                   "visited (<= 2) was found non-empty and free of ';' -- the only values that survive being joined by ';' and split again")
+    n = 0
+    for k, o in enumerate(outs):
+        evs = o.events
+        first = next((i for i, e in enumerate(evs) if e[0] == "first-change"), None)
+        if first is None:
+            continue
+        n += 1
+        before = evs[:first]
+        cols = sorted(set(x[1] for x in before if x[0] == "elem" and re.fullmatch(r"columns\[\d+\]", x[1])))
+        for c in cols:
+            if not any(x[0] == "enum" and x[1] == c for x in before):
+                g.queries.append(Query("unconsulted_%d_%d" % (k, len(g.queries)), o.pc, "unsat",
+                                       note="create_table reaches its catalog inserts without looking at a column's enumeration values at all (a value that is empty or "
+                                            "contains ';' is stored joined by ';' and reopens as different values)"))
+        for e in before:
+            if e[0] == "enum" and e[2]:
+                ecoll = "enum(%s)" % e[1]
+                done = any(x[0] == "iter-done" and x[1].endswith("|" + ecoll) for x in before)
+                if not done:
+                    g.queries.append(Query("unscanned_%d_%d" % (k, len(g.queries)), o.pc, "unsat",
+                                           note="create_table reaches its catalog inserts without going through a column's enumeration values (a value that is empty or contains ';' is stored joined by ';' and reopens as different values)"))
+                    continue
+                for x in before:
+                    if x[0] == "elem" and re.fullmatch(re.escape(ecoll) + r"\[\d+\]", x[1]):
+                        for tag, what in (("empty?", "empty"), ("semi?", "containing ';'")):
+                            asked = [y for y in before if y[0] == tag and y[1] == x[1]]
+                            if not asked:
+                                g.queries.append(Query("unasked_%d_%d" % (k, len(g.queries)), o.pc, "unsat", note="an enumeration value is not tested for being %s before the catalog inserts" % what))
+                            for y in asked:
+                                g.queries.append(Query("bad_%d_%d" % (k, len(g.queries)), o.pc + [y[2]], "unsat", note="an enumeration value that is %s gets as far as the catalog inserts" % what))
+        if len(g.witness) < 30:
+            g.witness.append(Query("w_%d" % k, o.pc, "sat"))
+    if n < 3:
+        raise EncodingError("enum gate: only %d paths reach the first catalog step" % n)
+    return [g]
+
+
 def c05_all(mir, ctx):
     return c05_update_group(mir, ctx) + c05_insert_group(mir, ctx) + c05_builder_group(mir, ctx)
 
@@ -3655,7 +3738,7 @@ def _proto(which):
 
 BUILDERS = {"C18": c18_groups, "C19": c19_groups, "C14": c14_groups, "C20": c20_all, "C09": c20_groups,
             "C01": _proto({"mutators", "finish", "close"}), "C10": (lambda mir, ctx: _proto({"mutators", "finish"})(mir, ctx) + c10_set_codepage_group(mir, ctx) + c10_size_law_group(mir, ctx)),
-            "C15": _proto({"finish", "close"}), "C16": (lambda mir, ctx: _proto({"readonly"})(mir, ctx) + c16_loaded_pool_group(mir, ctx)), "C08": (lambda mir, ctx: c08_all(mir, ctx) + _proto({"finish"})(mir, ctx)), "C04": (lambda mir, ctx: _proto({"reject"})(mir, ctx) + c04_create_table_group(mir, ctx) + c05_update_group(mir, ctx) + c05_insert_group(mir, ctx)), "C11": c11_all, "C07": c07_insert_gate_group, "C12": c12_all, "C05": c05_all, "C13": c13_constructor_group, "C03": c03_all}
+            "C15": _proto({"finish", "close"}), "C16": (lambda mir, ctx: _proto({"readonly"})(mir, ctx) + c16_loaded_pool_group(mir, ctx)), "C08": (lambda mir, ctx: c08_all(mir, ctx) + _proto({"finish"})(mir, ctx)), "C04": (lambda mir, ctx: _proto({"reject"})(mir, ctx) + c04_create_table_group(mir, ctx) + c05_update_group(mir, ctx) + c05_insert_group(mir, ctx)), "C11": c11_all, "C07": c07_insert_gate_group, "C12": c12_all, "C05": c05_all, "C13": c13_constructor_group, "C03": c03_all, "C06": c06_enum_gate_group}
 
 
 def native_confirm_c18(vals, work):
